@@ -78,9 +78,12 @@ FnCycle(S) == LET E == ValueEdges(S) IN \E e \in E : e[1] \in ReachFrom(E, {e[2]
 
 Family(o) == IF FnCycle(o.lex) THEN "fn-cycle" ELSE "input=" \o o.id
 
-(* ---- finding keys ------------------------------------------------------ *)
+(* ---- finding keys ------------------------------------------------------
+   panic: the panic site;  abort / timeout (one class: which of the two is observed depends on the limits
+   and the machine): the input family;  diag with blank text: "empty-diagnostics".                  *)
+OutcomeClass(outcome) == IF outcome \in {"abort", "timeout"} THEN "abort-or-timeout" ELSE outcome
 KeyOf(prop, api, outcome, site, o) ==
-  prop \o "|" \o api \o "|" \o outcome \o "|" \o
+  prop \o "|" \o api \o "|" \o OutcomeClass(outcome) \o "|" \o
   (IF outcome = "panic" THEN site
    ELSE IF outcome = "diag" THEN "empty-diagnostics"
    ELSE Family(o))
@@ -90,10 +93,11 @@ KeyC04(o) ==
   IF ~LegalApi(o.check, o.ctext) THEN KeyOf("C04", "check", o.check, o.csite, o)
   ELSE KeyOf("C04", "compile", o.compile, o.dsite, o)
 
-\* C34: check_lsp itself, or the first failing query kind/site
-KeyC34(o) ==
-  IF o.lsp = "panic" /\ o.qsites # <<>> THEN "C34|" \o o.qsites[1].q \o "|panic|" \o o.qsites[1].site
-  ELSE KeyOf("C34", "check_lsp", o.lsp, o.site, o)
+\* C34: check_lsp itself, or every distinct failing (query kind, panic site) of the case
+KeysC34(o) ==
+  IF o.lsp = "panic" /\ o.qsites # <<>>
+  THEN [j \in 1..Len(o.qsites) |-> "C34|" \o o.qsites[j].q \o "|panic|" \o o.qsites[j].site]
+  ELSE << KeyOf("C34", "check_lsp", o.lsp, o.site, o) >>
 
 (* ---- regression seeds: the minimal input of every defect family known at the pinned commit;
         they keep the families covered whatever the random sample contains ------------------ *)
